@@ -20,7 +20,7 @@ M = [
     ('c01_comment_partition', 'C01', 'penman/_parse.py', "comment.rpartition('::')", "comment.partition('::')[::-1] if False else comment.rpartition('::') if '::' not in comment[comment.find('::') + 2:] else (comment[:comment.find('::')], '::', comment[comment.find('::') + 2:].replace('::', ' '))"),
     ('c01_string_escape', 'C01', 'penman/_lexer.py', r"""'STRING': r'"[^"\\]*(?:\\.[^"\\]*)*"',""", r"""'STRING': r'"[^"\\]*(?:\\"[^"\\]*)*"',"""),
     ('c01_compact_target_in_vars', 'C01', 'penman/_format.py', "if compact and (not is_atomic(target) or target in vars):", "if compact and not is_atomic(target):"),
-    ('c02_secondary_context_pass', 'C02', 'penman/layout.py', "                    continue  # change to 'pass' to allow multiple contexts", "                    pass  # change to 'pass' to allow multiple contexts"),
+    ('c02_secondary_context_pass', 'C06', 'penman/layout.py', "                    continue  # change to 'pass' to allow multiple contexts", "                    pass  # change to 'pass' to allow multiple contexts"),
     ('c02_epigraph_nested_alignment', 'C02', 'penman/layout.py', "            elif epi.mode == 2 and atomic_target:  # target epidata", "            elif epi.mode == 2:  # target epidata"),
     ('c03_find_next_wrong_end', 'C03', 'penman/layout.py', "    for i in range(len(data) - 1, -1, -1):", "    for i in range(len(data)):"),
     ('c03_establish_no_break', 'C03', 'penman/layout.py', "                    edges[i] = tuple(edge)\n                    break", "                    edges[i] = tuple(edge)"),
@@ -69,11 +69,30 @@ M = [
     ('c18_parse_constant', 'C18', 'penman/constant.py', "                value = json.loads(constant_string, parse_constant=str)", "                value = json.loads(constant_string)"),
     ('c18_literal_guard', 'C18', 'penman/constant.py', "        if constant_string not in ('true', 'false', 'null'):", "        if constant_string not in ('true', 'false'):"),
     ('c19_role_slice', 'C19', 'penman/_format.py', "        f'{role.lstrip(\":\")}({source}, {target})'", "        f'{role[1:]}({source}, {target})' if len(role) > 9 else f'{role.lstrip(\":\")}({source}, {target})'"),
-    ('c19_caret_first_role', 'C19', 'penman/_parse.py', "    strip_caret = False\n    while True:", "    strip_caret = True\n    while True:"),
+    ('c19_caret_first_role', 'C07', 'penman/_parse.py', "    strip_caret = False\n    while True:", "    strip_caret = True\n    while True:"),
     ('c20_swap_reify_dereify', 'C20', 'penman/__main__.py', "    if normalize_options['reify_edges']:\n        g = transform.reify_edges(g, model)\n    if normalize_options['dereify_edges']:\n        g = transform.dereify_edges(g, model)", "    if normalize_options['dereify_edges']:\n        g = transform.dereify_edges(g, model)\n    if normalize_options['reify_edges']:\n        g = transform.reify_edges(g, model)"),
     ('c20_indent_zero_unset', 'C20', 'penman/__main__.py', "                indent = int(indent)\n                if indent < -1:", "                indent = int(indent) or -1\n                if indent < -1:"),
     ('c20_compact_dropped_with_indent', 'C20', 'penman/__main__.py', "        'compact': args.compact,", "        'compact': args.compact and args.indent is None,"),
 ]
+
+
+# mutants that turned out not to break the property they were aimed at (kept for the record, not run)
+EQUIVALENT = {
+    'c01_comment_partition': 'garbled edit (not a clean mutant); withdrawn',
+    'c01_compact_target_in_vars': 'changes only which whitespace is used in compact mode (C01 allows any whitespace difference)',
+    'c04_role_alignment_last_tilde': 'the lexer never yields a role with two "~"; identical on every parser-producible tree',
+    'c05_reconfigure_keep_pops': 'changes the layout reconfigure chooses, not the content (C05 is about content)',
+    'c06_surprising_or': 'only changes which recovery branch is taken; content unaffected on everything explored',
+    'c07_missing_target_before_lparen': 'the error is raised one step later at the same token and position',
+    'c08_unexpected_unicode_blank': 'SYMBOL is tried before UNEXPECTED and already matches every such character',
+    'c09_dump_no_blank_line': 'graphs separated by a space still load back equal (the statement allows any separation)',
+    'c11_swap_inverted': 'garbled edit (not a clean mutant); withdrawn',
+    'c12_attr_markers_lose_pops': 'changes where later branches attach (layout), not the content or well-formedness that C12 states',
+    'c14_last_push': 'decoded graphs never carry two Push markers on one triple',
+    'c14_fallback_source': 'logically equivalent on triples with source != target (the context is one of the two ends)',
+    'c16_directed_reachability': 'forward edges from the top suffice for reachability from the top',
+    'c19_role_slice': 'role[1:] equals lstrip(":") for every role with one leading colon',
+}
 
 
 def sh(cmd, cwd=None, env=None, timeout=3600):
@@ -91,6 +110,9 @@ def main():
     results = json.load(open(resp)) if os.path.exists(resp) else {}
     for name, prop, path, old, new in M:
         if names and name not in names:
+            continue
+        if name in EQUIVALENT and not names:
+            results[name] = {'property': prop, 'status': 'equivalent (does not break the property): ' + EQUIVALENT[name]}
             continue
         wt = tempfile.mkdtemp(prefix='wt_mut_', dir='/tmp')
         os.rmdir(wt)
